@@ -90,7 +90,7 @@ Proof.
   - intros H. inversion H; subst. repeat split; auto; apply keeps_refl.
   - destruct (blob_ro s); [discriminate|]. intros H. inversion H; subst; clear H.
     destruct (wc_ro s); cbn; (split; [reflexivity|]); (split; [reflexivity|]); (split; [reflexivity|]); (split; [reflexivity|]);
-      unfold keeps; cbn; (split; [reflexivity|]); (split; [reflexivity|]); rewrite ?E; repeat split; intros x; rewrite ?In_union; cbn; tauto.
+      unfold keeps; cbn; (split; [reflexivity|]); (split; [reflexivity|]); rewrite ?E; repeat split; intros x; rewrite ?In_add, ?In_union; cbn; intuition (subst; auto).
 Qed.
 
 Lemma comp_switch_spec c m f s s' ok :
@@ -163,7 +163,7 @@ Proof.
       split; [congruence|]. split; [eapply keeps_trans; eauto|]. split; [exact I2|].
       intros Ho c0 Hc. apply P; [exact Ho|].
       destruct (comp_eq_dec c0 c) as [->|N].
-      * right. eapply comp_switch_in; eauto.
+      * right. exact (comp_switch_in _ _ _ _ _ Hi E).
       * destruct Hc as [[Hc|Hc]|Hc].
         -- exfalso. apply N. symmetry. exact Hc.
         -- left. exact Hc.
